@@ -433,6 +433,9 @@ type c08Img struct {
 	what    string // description of the crash point
 	verify  bool
 	flip    string
+	// late: the alteration is applied by this function AFTER a first pass of verifying readers on the same open cache
+	// (the file rots while the process runs); a second pass of readers then must refuse it or serve the source's bytes
+	late func() error
 }
 
 func (im c08Img) String() string {
@@ -840,6 +843,88 @@ func (w *c08W) interrogateBody(st *c08Session, img *simfs.FS, id string, im c08I
 			simrt.Probe("c08_refused_while_reading")
 		}
 	}
+	if im.late == nil {
+		return nil
+	}
+	// ---- second pass: the file is altered now, with the cache open and its segments verified once already
+	for _, o := range reading {
+		o.tap.close()
+	}
+	w.r.Advance(2 * cacheTick)
+	if err := im.late(); err != nil {
+		return nil
+	}
+	simrt.Probe("c08_late_alteration")
+	var second []opened
+	if hasRange {
+		st.setPhase("NewReader(%d) after the late alteration", l)
+		if rd, err := ch.NewReader(syncer.Offset{RunId: id, Offset: l}); err == nil {
+			t := newRtap(rd)
+			if rd.IsAof() {
+				st.addTap(t)
+				t.start()
+				second = append(second, opened{l, t, false})
+			} else {
+				t.close()
+			}
+		}
+	}
+	if ro >= 0 && rn > 0 {
+		st.setPhase("NewReader(offset %d = snapshot offset - size) after the late alteration", ro-rn)
+		if rd, err := ch.NewReader(syncer.Offset{RunId: id, Offset: ro - rn}); err == nil {
+			t := newRtap(rd)
+			if !rd.IsAof() {
+				st.addTap(t)
+				t.start()
+				second = append(second, opened{ro - rn, t, true})
+			} else {
+				t.close()
+			}
+		}
+	}
+	st.setPhase("reading after the late alteration")
+	idle, last = 0, -1
+	for step := 0; step < 2400 && idle < 3 && len(second) > 0; step++ {
+		w.r.Advance(cacheTick)
+		tot, live := 0, 0
+		for _, o := range second {
+			n, _, ended := o.tap.snapshot()
+			tot += n
+			if !ended {
+				live++
+			}
+		}
+		if tot == last {
+			idle++
+		} else {
+			idle = 0
+		}
+		last = tot
+		if live == 0 {
+			break
+		}
+	}
+	for _, o := range second {
+		got := o.tap.bytes()
+		w.served += int64(len(got))
+		if o.snap {
+			want := w.snapData(key, ro, rn)
+			for i := range got {
+				if i >= len(want) || got[i] != want[i] {
+					return w.violate("C08.snapshot_wrong_byte", "altered snapshot byte delivered (altered after a first verified read on the same open cache)", im,
+						"id %s: snapshot (%d,%d): the second reader delivered byte %d = %#02x, not what the source sent", tailID(id), ro, rn, i, got[i])
+				}
+			}
+			continue
+		}
+		for i := range got {
+			p := o.x + int64(i)
+			if want := cacheByte(key, p); got[i] != want {
+				return w.violate("C08.wrong_byte", "altered segment byte delivered (altered after a first verified read on the same open cache)", im,
+					"id %s: the second reader, opened at %d, delivered %#02x at offset %d, source sent %#02x (range [%d,%d])", tailID(id), o.x, got[i], p, want, l, rr)
+			}
+		}
+	}
 	return nil
 }
 
@@ -954,6 +1039,17 @@ func (w *c08W) corrupt() *Violation {
 				budget--
 				img := w.fs.ImageAt(k, 0)
 				path := c08Base + "/" + id + "/" + e.Name()
+				if budget%5 == 2 && p >= 16 {
+					// the same alteration, but while the cache is open and after its readers have verified every segment once
+					p := p
+					w.r.W.Fault("late_byte_alteration")
+					im := c08Img{k: k, ver: w.ver, what: "final image", verify: true, flip: fmt.Sprintf("%s byte %d ^= %#02x after a first pass of verifying readers", e.Name(), p, mask),
+						late: func() error { return img.FlipByte(path, p, mask) }}
+					if v := w.interrogate(img, id, im, false); v != nil {
+						return v
+					}
+					continue
+				}
 				if err := img.FlipByte(path, p, mask); err != nil {
 					continue
 				}
